@@ -332,12 +332,7 @@ func runConcurrent(in J) interface{} {
 	close(ready)
 	doneCh := make(chan struct{})
 	go func() { wg.Wait(); close(doneCh) }()
-	hang := false
-	select {
-	case <-doneCh:
-	case <-time.After(20 * time.Second):
-		hang = true
-	}
+	hang := !waitDone(doneCh, 10*time.Second)
 	obs := J{"seq": seqCols, "seqErrs": seqErrs, "seqCb": seqCb, "seqFwd": seqFw, "hang": hang}
 	if !hang {
 		conCb, conFw := countsOf(wc)
